@@ -87,14 +87,16 @@ def run_writer(directory: str, scn: dict, dest_name: str = 'dest.bin') -> str:
         with writer as f:
             for i, chunk in enumerate(new_chunks(scn)):
                 if scn.get('raise_at') == i:
-                    raise BodyError('body failed')
+                    # the body can be left by any BaseException: an ordinary error, Ctrl-C, sys.exit() or the close of a
+                    # generator that holds the writer open
+                    raise {'KeyboardInterrupt': KeyboardInterrupt, 'SystemExit': SystemExit, 'GeneratorExit': GeneratorExit}.get(scn.get('exc'), BodyError)('body failed')
                 f.write(chunk if scn['is_bytes'] else chunk.decode('latin1'))
                 if i in scn.get('flush_after', ()):
                     f.flush()
             if scn.get('raise_at') == len(scn['writes']):
                 raise BodyError('body failed at the end')
     except BaseException as exc:
-        if isinstance(exc, SystemExit):
+        if isinstance(exc, SystemExit) and scn.get('exc') != 'SystemExit':
             raise
         return f'handled:{type(exc).__name__}:{getattr(exc, "errno", "")}'
     return 'ok'
@@ -175,6 +177,9 @@ def scenarios(thorough: bool) -> List[dict]:
             for r in range(len(w) + 1):
                 if thorough or r in (0, len(w)):
                     out.append({'is_bytes': is_bytes, 'writes': w, 'raise_at': r})
+    for kind in ('KeyboardInterrupt', 'SystemExit', 'GeneratorExit'):
+        out.append({'is_bytes': True, 'writes': [9000, 20000], 'raise_at': 1, 'exc': kind, 'no_faults': True})
+        out.append({'is_bytes': False, 'writes': [70000], 'raise_at': 1, 'exc': kind, 'no_faults': True})
     out.append({'is_bytes': True, 'writes': [9000, 9000], 'stale_tmp': True})
     out.append({'is_bytes': True, 'writes': [9000, 9000], 'stale_tmp': True, 'raise_at': 1})
     out.append({'is_bytes': True, 'writes': [20000], 'missing_parent': True})
